@@ -468,7 +468,8 @@ pub fn gen_elem(w: &World, s: &Spec, d: &mut D, mode: Mode, body_mode: Mode, st:
     // a defaulted const must not precede a non-defaulted type parameter; the sort above ensures it
     // (a where-clause needs no parameter list: `struct S where u8: Copy;`)
     let where_clause = if d.ratio(1, 3) { Some(d.pick(&["u8: Copy", "Vec<u8>: Clone, String: Default,", "String: Clone", "i8: Copy,", ""]).to_string()) } else { None };
-    let attrs = gen_attrset(w, Some(s), d, mode, st, false);
+    // (the element itself may carry no claimed attribute at all when nothing is required of it)
+    let attrs = gen_attrset(w, Some(s), d, mode, st, true);
     let body = match s.tr {
         Trait::FromField => {
             let stl = if d.ratio(1, 4) { StyleIn::Tuple } else { StyleIn::Named };
